@@ -195,6 +195,14 @@ class TermBuilder:
     def call_term(self, c, stack=()):
         args = tuple(self.joperand(a, stack) for a in c["args"])
         callee = c.get("callee") or ("fnptr:" + c.get("fnty", "?"))
+        if self.prog is not None and len(args) == 1 and c.get("via") in ("direct",):
+            acc = accessor_projection(self.prog, self.fn.crate, callee)
+            if acc is not None:
+                t = args[0]
+                t = t[1] if t[0] == "ref" else ("deref", t)
+                for e in acc:
+                    t = self.project(t, e, stack)
+                return ("ref", t)
         if callee in LEN_FNS and len(args) == 1:
             return ("len", strip_refs(args[0]))
         return ("call", callee, args)
@@ -208,6 +216,78 @@ class TermBuilder:
                 if "a" in s and mk_place(s["a"]) == (0, ()):
                     return self.rvalue(s["rv"])
         return ("const", ("opaque", "promoted"))
+
+
+# ---------------------------------------------------------------------------
+_ACC = {}
+
+
+def accessor_projection(prog, crate, callee):
+    """If `callee` is a pure projection accessor – a one-parameter function whose only normal return is
+    `&mut (*param as Variant).field` (other arms diverge, e.g. `_ => unreachable!()`) – return the
+    projection list after the parameter's deref; else None.  Lets `*s.get_x()` be identified with
+    `s.<Variant>.x`."""
+    key = (crate, callee)
+    if key in _ACC:
+        return _ACC[key]
+    res = None
+    f = prog.get(crate, callee) if prog is not None else None
+    if f is not None and f.argc == 1 and f.kind == "assoc" and f.locals[0]["ty"].startswith("&") and len(f.blocks) < 40:
+        tb = TermBuilder(f, None)
+        cands = []
+        ok = True
+        for blk in f.blocks:
+            if blk.cleanup or blk.idx not in f.reachable:
+                continue
+            for st in blk.stmts:
+                if "a" in st and mk_place(st["a"]) == (0, ()):
+                    rv = st["rv"]
+                    if "ref" in rv:
+                        cands.append(mk_place(rv["ref"]))
+                    elif "use" in rv and ("mv" in rv["use"] or "cp" in rv["use"]):
+                        # `_0 = move _x` where _x = &mut place
+                        src = mk_place(rv["use"].get("mv") or rv["use"].get("cp"))
+                        d = tb.defs.get(src[0], [])
+                        if not src[1] and len(d) == 1 and d[0][0] == "stmt":
+                            rv2 = f.blocks[d[0][1]].stmts[d[0][2]]["rv"]
+                            if "ref" in rv2:
+                                cands.append(mk_place(rv2["ref"]))
+                            else:
+                                ok = False
+                        else:
+                            ok = False
+                    else:
+                        ok = False
+            if "call" in blk.term and blk.term["call"]["target"] is not None:
+                ok = False  # calls something that returns: not a pure projection
+        # resolve chains of reborrows: candidates must be rooted at the parameter
+        def root(pl, depth=0):
+            l, proj = pl
+            if l == 1:
+                return proj
+            d = tb.defs.get(l, [])
+            if depth < 6 and len(d) == 1 and d[0][0] == "stmt":
+                rv2 = f.blocks[d[0][1]].stmts[d[0][2]]["rv"]
+                if "ref" in rv2 and proj and proj[0] == ("deref",):
+                    base = root(mk_place(rv2["ref"]), depth + 1)
+                    if base is not None:
+                        return base + proj[1:]
+                if "use" in rv2 and ("mv" in rv2["use"] or "cp" in rv2["use"]):
+                    base = root(mk_place(rv2["use"].get("mv") or rv2["use"].get("cp")), depth + 1)
+                    if base is not None:
+                        return base + proj
+            return None
+        projs = set()
+        for c_ in cands:
+            r = root(c_)
+            if r is None or not r or r[0] != ("deref",) or any(e[0] not in ("f", "dc", "deref") for e in r):
+                ok = False
+            else:
+                projs.add(tuple(r[1:]))
+        if ok and len(projs) == 1 and next(iter(projs)):
+            res = list(next(iter(projs)))
+    _ACC[key] = res
+    return res
 
 
 # ---------------------------------------------------------------------------
